@@ -169,6 +169,13 @@ func pitCase(caseID string, seed int64) {
 	prefix = append(prefix, mk(TypeCreateDatabase, CmdCreateDatabase("db0", &RPInfo{"rp0", 0, int64(3600e9), 1}), `CreateDatabase("db0",rp0)`),
 		mk(TypeCreateUser, CmdCreateUser("u0", "hash0", true), `CreateUser("u0")`),
 		mk(TypeCreateShardGroup, CmdCreateShardGroup("db0", "rp0", t0), `CreateShardGroup("db0","rp0",t0)`))
+	if directed == 2 {
+		// two subscriptions on one policy: dropping the first one later shifts
+		// the second one down inside the list's backing array
+		prefix = append(prefix,
+			mk(TypeCreateSubscription, CmdCreateSubscription("sa", "db0", "rp0", "ANY", []string{"udp://h1:9000"}), `CreateSubscription(sa,"db0","rp0")`),
+			mk(TypeCreateSubscription, CmdCreateSubscription("sb", "db0", "rp0", "ALL", []string{"udp://h2:9000"}), `CreateSubscription(sb,"db0","rp0")`))
+	}
 	for _, c := range prefix {
 		w.Prefix, w.PHex = append(w.Prefix, c.Desc), append(w.PHex, c.Hex)
 		if _, ok := apply(c); !ok {
@@ -176,7 +183,7 @@ func pitCase(caseID string, seed int64) {
 		}
 	}
 	nRandom := g.Intn(40)
-	if directed < 2 {
+	if directed <= 2 {
 		nRandom = 0 // keep the list capacities the directed prefix arranged
 	}
 	for i := 0; i < nRandom; i++ {
@@ -214,6 +221,9 @@ func pitCase(caseID string, seed int64) {
 			c := laterCmd(g, x, f.Data())
 			if i == 1 && directed == 0 {
 				c = mk(TypeCreateDataNode, CmdCreateDataNode("hr:8086", "shared:8088"), "CreateDataNode(hr:8086,shared:8088)")
+			}
+			if i == 1 && directed == 2 {
+				c = mk(TypeDropSubscription, CmdDropSubscription("sa", "db0", "rp0"), `DropSubscription(sa,"db0","rp0")`)
 			}
 			if i == 1 && directed == 1 {
 				c = mk(TypeCreateMetaNode, CmdCreateMetaNode("hr:8091", "shared:8088", 5), "CreateMetaNode(hr:8091,shared:8088)")
